@@ -1,8 +1,309 @@
-//! C17 — generator and driver of the real API.
+//! C17 — rank/select and wavelet matrix equal naive counting.
+//!
+//! `rs k:<k> n:<n> f:<0|1> <hex bytes> r:<all|i,i,…> s:<all|j,j,…>`
+//!     bit i of the vector = bit (i % 8) of byte i / 8 (little endian), n bits; the `BitVec<u8>` is made with
+//!     `new_fill(f, n)` and every bit is then set explicitly (f = 1 leaves ones in the padding of the raw last
+//!     block, which must not be observable).  `r:all` = every i in 0..=n, `s:all` = every j in 0..=n+1.
+//!     obs  `r1:<v|N,…> r0:<…> s1:<…> s0:<…> g:<hex of the bits read back through get()>`
+//! `wm <hex text>`   text over A,C,G,T,N,$;  obs  `<rank(A,0)>,<rank(A,1)>,…;<rank(C,0)>,…;…` in the order A,C,G,T,N,$
+//! `tab dna2int`     obs = the 128 entries of the literal `DNA2INT` table in the compiled source (comma separated)
 use crate::util::*;
+use bio::data_structures::rank_select::RankSelect;
+use bio::data_structures::wavelet_matrix::WaveletMatrix;
+use bv::{BitVec, BitsMut};
 
-pub fn gen(_tier: &str, _rng: &mut Rng, _out: &mut Vec<String>) {}
+const WM_SRC: &str = include_str!("../bio-src/src/data_structures/wavelet_matrix.rs");
 
-pub fn exec(_toks: &[&str]) -> Result<String, String> {
-    Err("unimplemented".into())
+fn opt(x: Option<u64>) -> String {
+    match x {
+        Some(v) => v.to_string(),
+        None => "N".into(),
+    }
+}
+
+fn exec_rs(toks: &[&str]) -> Result<String, String> {
+    if toks.len() != 7 {
+        return Err("arity".into());
+    }
+    let k: usize = parse(kv(toks[1], "k")?)?;
+    let n: usize = parse(kv(toks[2], "n")?)?;
+    let f: usize = parse(kv(toks[3], "f")?)?;
+    let bytes = unhex(toks[4])?;
+    if k == 0 || k > 64 || n == 0 || n > 100_000 || f > 1 || bytes.len() != (n + 7) / 8 {
+        return Err("shape".into());
+    }
+    // unused bits of the last byte must be zero in the *input* (canonical form)
+    if n % 8 != 0 && (bytes[bytes.len() - 1] >> (n % 8)) != 0 {
+        return Err("padding".into());
+    }
+    let ris: Vec<u64> = match kv(toks[5], "r")? {
+        "all" => (0..=n as u64).collect(),
+        l => parse_list(l, ',')?,
+    };
+    let sjs: Vec<u64> = match kv(toks[6], "s")? {
+        "all" => (0..=n as u64 + 1).collect(),
+        l => parse_list(l, ',')?,
+    };
+    let mut bits: BitVec<u8> = BitVec::new_fill(f == 1, n as u64);
+    for i in 0..n {
+        bits.set_bit(i as u64, (bytes[i / 8] >> (i % 8)) & 1 == 1);
+    }
+    let rs = RankSelect::new(bits, k);
+    let r1: Vec<String> = ris.iter().map(|&i| opt(rs.rank_1(i))).collect();
+    let r0: Vec<String> = ris.iter().map(|&i| opt(rs.rank_0(i))).collect();
+    let s1: Vec<String> = sjs.iter().map(|&j| opt(rs.select_1(j))).collect();
+    let s0: Vec<String> = sjs.iter().map(|&j| opt(rs.select_0(j))).collect();
+    let mut back = vec![0u8; bytes.len()];
+    for i in 0..n {
+        if rs.get(i as u64) {
+            back[i / 8] |= 1 << (i % 8);
+        }
+    }
+    Ok(format!(
+        "r1:{} r0:{} s1:{} s0:{} g:{}",
+        join(&r1, ","),
+        join(&r0, ","),
+        join(&s1, ","),
+        join(&s0, ","),
+        hex(&back)
+    ))
+}
+
+const SYMS: &[u8; 6] = b"ACGTN$";
+
+fn exec_wm(toks: &[&str]) -> Result<String, String> {
+    if toks.len() != 2 {
+        return Err("arity".into());
+    }
+    let text = unhex(toks[1])?;
+    if text.is_empty() || text.len() > 5000 || text.iter().any(|c| !SYMS.contains(c)) {
+        return Err("text".into());
+    }
+    let wm = WaveletMatrix::new(&text);
+    let mut rows = vec![];
+    for &c in SYMS {
+        let r: Vec<u64> = (0..text.len()).map(|p| wm.rank(c, p as u64)).collect();
+        rows.push(join(&r, ","));
+    }
+    Ok(rows.join(";"))
+}
+
+fn exec_tab(toks: &[&str]) -> Result<String, String> {
+    if toks.len() != 2 || toks[1] != "dna2int" {
+        return Err("arity".into());
+    }
+    // the literal between `const DNA2INT: [u8; 128] = [` and `];`, comments removed
+    let start = WM_SRC.find("const DNA2INT").ok_or("no DNA2INT")?;
+    let rest = &WM_SRC[start..];
+    let eq = rest.find('=').ok_or("no =")?;
+    let open = eq + rest[eq..].find('[').ok_or("no [")?;
+    let close = open + rest[open..].find("];").ok_or("no ];")?;
+    let body = &rest[open + 1..close];
+    let mut vals: Vec<u64> = vec![];
+    for line in body.lines() {
+        let line = match line.find("//") {
+            Some(i) => &line[..i],
+            None => line,
+        };
+        for t in line.split(',') {
+            let t = t.trim();
+            if !t.is_empty() {
+                vals.push(t.parse::<u64>().map_err(|_| format!("entry {}", t))?);
+            }
+        }
+    }
+    Ok(join(&vals, ","))
+}
+
+// ------------------------------------------------------------------------------------------------ generators
+
+fn gen_bits(rng: &mut Rng, n: usize) -> Vec<bool> {
+    match rng.below(9) {
+        0 => vec![false; n],
+        1 => vec![true; n],
+        2 => (0..n).map(|_| rng.chance(1, 40)).collect(),  // sparse
+        3 => (0..n).map(|_| !rng.chance(1, 40)).collect(), // dense
+        4 | 5 => (0..n).map(|_| rng.chance(1, 2)).collect(),
+        6 => {
+            // long runs
+            let mut v = Vec::with_capacity(n);
+            let mut b = rng.chance(1, 2);
+            while v.len() < n {
+                let run = 1 + rng.below(120);
+                for _ in 0..run.min(n - v.len()) {
+                    v.push(b);
+                }
+                b = !b;
+            }
+            v
+        }
+        7 => {
+            // a single one / a single zero at a chosen place
+            let b = rng.chance(1, 2);
+            let mut v = vec![!b; n];
+            let pos = match rng.below(3) {
+                0 => 0,
+                1 => n - 1,
+                _ => rng.below(n),
+            };
+            v[pos] = b;
+            v
+        }
+        _ => {
+            // whole all-zero / all-one bytes and superblocks mixed with random bytes
+            let mut v = Vec::with_capacity(n);
+            while v.len() < n {
+                let span = *rng.pick(&[8usize, 8, 16, 32, 64]);
+                let mode = rng.below(3);
+                for _ in 0..span.min(n - v.len()) {
+                    v.push(match mode {
+                        0 => false,
+                        1 => true,
+                        _ => rng.chance(1, 2),
+                    });
+                }
+            }
+            v
+        }
+    }
+}
+
+fn pack(bits: &[bool]) -> Vec<u8> {
+    let mut out = vec![0u8; (bits.len() + 7) / 8];
+    for (i, &b) in bits.iter().enumerate() {
+        if b {
+            out[i / 8] |= 1 << (i % 8);
+        }
+    }
+    out
+}
+
+fn gen_rs(rng: &mut Rng, small_only: bool) -> String {
+    let k = 1 + rng.below(4);
+    let s = 32 * k;
+    let n = match rng.below(if small_only { 6 } else { 10 }) {
+        0 => 1 + rng.below(16),
+        1 => 8 * (1 + rng.below(12)) + rng.below(3) - 1,
+        2 | 3 => {
+            let m = 1 + rng.below(4);
+            (s * m + rng.below(19)).saturating_sub(9).max(1)
+        }
+        4 | 5 => 1 + rng.below(300),
+        6 => {
+            let m = 1 + rng.below(3000 / s);
+            (s * m + rng.below(19)).saturating_sub(9).max(1)
+        }
+        _ => 1 + rng.below(3000),
+    };
+    let n = n.min(3000);
+    let bits = gen_bits(rng, n);
+    let f = rng.below(2);
+    let (r, sj) = if n <= 300 {
+        ("all".to_string(), "all".to_string())
+    } else {
+        let ones = bits.iter().filter(|&&b| b).count();
+        let zeros = n - ones;
+        let mut ri: Vec<usize> = vec![0, n - 1, n, n + 1];
+        let mut sj: Vec<usize> = vec![0, 1, ones, ones + 1, zeros, zeros + 1, n, n + 1];
+        for _ in 0..40 {
+            ri.push(rng.below(n));
+            // positions next to superblock and byte boundaries
+            let b = s * rng.below(n / s + 1);
+            for d in [0usize, 1, 7, 8] {
+                if b + d < n + 2 {
+                    ri.push(b + d);
+                }
+                if b >= d {
+                    ri.push(b - d);
+                }
+            }
+            sj.push(rng.below(ones + 2));
+            sj.push(rng.below(zeros + 2));
+        }
+        // ranks reached exactly at superblock boundaries (select has to pick the right superblock)
+        let mut c1 = 0usize;
+        for (i, &b) in bits.iter().enumerate() {
+            if i % s == 0 {
+                let c0 = i - c1;
+                for d in [0usize, 1] {
+                    sj.push(c1 + d);
+                    sj.push(c0 + d);
+                }
+            }
+            if b {
+                c1 += 1;
+            }
+        }
+        ri.truncate(400);
+        sj.truncate(600);
+        (join(&ri, ","), join(&sj, ","))
+    };
+    format!("rs k:{} n:{} f:{} {} r:{} s:{}", k, n, f, hex(&pack(&bits)), r, sj)
+}
+
+fn gen_wm(rng: &mut Rng) -> String {
+    let n = match rng.below(5) {
+        0 => 1 + rng.below(4),
+        1 => *rng.pick(&[7usize, 8, 9, 31, 32, 33, 63, 64, 65, 127, 128, 129]),
+        _ => 1 + rng.below(200),
+    };
+    let alpha: Vec<u8> = match rng.below(6) {
+        0 => vec![*rng.pick(SYMS)],
+        1 => {
+            let a = *rng.pick(SYMS);
+            let b = *rng.pick(SYMS);
+            vec![a, b]
+        }
+        2 => b"ACGT".to_vec(),
+        _ => SYMS.to_vec(),
+    };
+    let mut t = rng.seq(&alpha, n);
+    if rng.chance(1, 3) {
+        // runs
+        let mut i = 0;
+        while i < n {
+            let c = *rng.pick(&alpha);
+            let run = 1 + rng.below(20);
+            for j in i..(i + run).min(n) {
+                t[j] = c;
+            }
+            i += run;
+        }
+    }
+    format!("wm {}", hex(&t))
+}
+
+fn enum_rs(out: &mut Vec<String>) {
+    // all bit vectors of length 1..=12, k = 1
+    for n in 1..=12usize {
+        for v in 0u32..(1 << n) {
+            let bytes = [(v & 255) as u8, (v >> 8) as u8];
+            out.push(format!("rs k:1 n:{} f:{} {} r:all s:all", n, v & 1, hex(&bytes[..(n + 7) / 8])));
+        }
+    }
+}
+
+pub fn gen(tier: &str, rng: &mut Rng, out: &mut Vec<String>) {
+    let thorough = tier == "thorough";
+    out.push("tab dna2int".into());
+    let n_rs = if thorough { 40_000 } else { 1_500 };
+    let n_wm = if thorough { 12_000 } else { 500 };
+    for i in 0..n_rs {
+        out.push(gen_rs(rng, i % 3 == 0));
+    }
+    for _ in 0..n_wm {
+        out.push(gen_wm(rng));
+    }
+    if thorough {
+        enum_rs(out);
+    }
+}
+
+pub fn exec(toks: &[&str]) -> Result<String, String> {
+    match toks.first() {
+        Some(&"rs") => exec_rs(toks),
+        Some(&"wm") => exec_wm(toks),
+        Some(&"tab") => exec_tab(toks),
+        _ => Err("kind".into()),
+    }
 }
